@@ -152,11 +152,11 @@ P("C11", [("K12", r"_q"), ("V5", None), ("V4", None), ("V19", None)],
   "The SLG side of the second sentence (tables persisting across interrupted solves) is a history property and is not reached (see C10).",
   "contract-based verification: Kani harness contract over enumerated streams + Verus on extracted text")
 
-P("C01", [("K12", None), ("V1", None), ("V3", None), ("V18", None), ("V23", None)],
+P("C01", [("K12", None), ("V1", None), ("V3", None), ("V18", None), ("V23", None), ("V24", None)],
   "model_checking",
   "Partial (aggregation contract only): Kani runs the real make_solution on every answer stream up to the bound: Unique iff exactly one unconditional answer, 'no solution' iff the "
   "stream is empty, nothing definite after a flounder or an interruption, the Unique payload is the stream's answer unchanged; Verus proves combine never manufactures a Unique, "
-  "that the recursive fixed point starts from bottom/top as the semantics requires, and that the tabling step solve_goal records every dependency on a provisional answer (V18), and that the answer solve_new_subgoal leaves for a goal is a fixed point of its last iteration unless that iteration did not depend on the goal itself (V23). BOUNDED (stream length <= 2/3); Verus parts unbounded.",
+  "that the recursive fixed point starts from bottom/top as the semantics requires, and that the tabling step solve_goal records every dependency on a provisional answer (V18), and that the answer solve_new_subgoal leaves for a goal is a fixed point of its last iteration unless that iteration did not depend on the goal itself (V23), and is made permanent exactly when its SCC is complete (V24). BOUNDED (stream length <= 2/3); Verus parts unbounded.",
   "Assumed: the answer stream itself is sound and complete, i.e. SLG resolution and the recursive search against the program's logical meaning — the bulk of C01 — are NOT verified "
   "(no function of chalk has the logical meaning as an argument or view; logic.rs is out of reach of both tools).",
   "contract-based verification: Kani harness contract over enumerated streams + Verus on extracted text")
@@ -190,10 +190,21 @@ P("C02", [("V23", None), ("V3", None), ("V17", None)],
   "closures over &mut self), and that the answer is the one the logical meaning dictates (C01).",
   "contract-based deductive verification: Verus on mechanically extracted function text, ghost history in the abstract search graph, in-place loop invariant")
 
+P("C10", [("V24", None), ("V18", None)],
+  "proof",
+  "Partial (the recursive solver's cache discipline named in the anchors): Verus proves on the verbatim text of RecursiveContext::solve_goal that a cache hit returns the cached answer and changes nothing (V18); "
+  "that for a new goal the answer returned is what the goal's last fixed-point iteration produced - the same whether or not a cache is configured; that the goal's node and everything above it are made permanent "
+  "in ONE move_to_cache batch headed by the goal and carrying the returned answer exactly when the iteration's minimums do not reach below the goal's own depth-first number (its SCC is complete), are "
+  "discarded by rollback_to instead when caching is disabled, and that otherwise NOTHING is made permanent: the node stays in the graph, off the stack, with the returned answer and with its links recorded (V24), "
+  "so that every later hit lowers its caller's minimums (V18, clause B). Unbounded.",
+  "Not reached: that answers cached this way equal what a fresh solver computes (needs soundness of the whole search, C01), the SLG forest's table reuse (get_or_create_table_for_ucanonical_goal: FxHashMap + "
+  "state machine), the bodies of SearchGraph::rollback_to / move_to_cache (hash-map retain with closures; their effect on the node sequence is an assumed contract). The known finding of C11 (an INTERRUPTED "
+  "answer is cached too) is reported under C11, not here.",
+  "contract-based deductive verification: Verus on mechanically extracted function text, ghost history and ghost cache-batch log in the abstract search graph, modular use of V23's proved contract")
+
 # ---- not (yet) claimed
 NOT_APPLICABLE['C04'] = 'relational property between two whole solvers; no function has a contract that mentions both'
 NOT_APPLICABLE['C06'] = 'the closure is computed by program_clauses_for_env (hash sets, iterator adaptors, logging) and a TypeVisitor; no extractable function carries the property'
-NOT_APPLICABLE['C10'] = 'property over histories of solver calls; Forest.tables / SearchGraph / Cache are FxHashMap-backed and logged (P5/P6/P10)'
 NOT_APPLICABLE['C18'] = "could_match is one generic Zip-driven recursion (MatchZipper over the derive(Zip) machinery, with a closure inside the match): not extractable for Verus, and two Kani attempts (symbolic head kinds; concrete head pairs with symbolic leaf children) needed 5-9 GB and did not finish in 7 minutes per harness even for leaf-vs-leaf — recorded in DESIGN.md; no bounded stand-in small enough to be worth claiming"
 NOT_APPLICABLE['C20'] = 'the orphan rule is realised by clause generation (closures, iterators, logging) plus a solver run; no contract within reach expresses it'
 NOT_APPLICABLE['C21'] = 'solver-mediated; wf.rs builds goals with iterator chains and closures'
